@@ -21,6 +21,7 @@ import (
 )
 
 type DomClause struct {
+	SameIter bool // "... same_iteration": X lies inside every loop that contains Y (X is re-executed in each iteration that reaches Y)
 	Tag   string
 	Later string // Y#n | Y#*
 	First string // X#m
@@ -37,6 +38,10 @@ func parseDomClause(rest string) (DomClause, error) {
 		}
 	}
 	f := strings.Fields(rest)
+	if len(f) == 4 && f[3] == "same_iteration" {
+		dc.SameIter = true
+		f = f[:3]
+	}
 	if len(f) != 3 || f[1] != "by" || !strings.Contains(f[0], "#") || !strings.Contains(f[2], "#") {
 		return dc, fmt.Errorf("dominated [tag] Y#n by X#m")
 	}
@@ -93,6 +98,13 @@ func (e *Engine) checkDominated(s *State, fn *ssa.Function, c *FuncContract) {
 					}
 				} else if !x.blk.Dominates(y.blk) {
 					ok, why = false, fmt.Sprintf("the call %s at %s can be reached without passing %s", dc.Later, posString(e.fset, y.in.Pos()), dc.First)
+				}
+				if ok && dc.SameIter {
+					for _, li := range e.loopsOf(fn).Loops {
+						if li.Blocks[y.blk] && !li.Blocks[x.blk] {
+							ok, why = false, fmt.Sprintf("the call %s at %s is inside loop %d but %s is outside it: its answer is not renewed in each iteration", dc.Later, posString(e.fset, y.in.Pos()), li.Ordinal, dc.First)
+						}
+					}
 				}
 			}
 		}
